@@ -128,7 +128,8 @@ def prep_dft(g, P, col):
         dims[0] = g.fresh("N")  # symbolic names are never shared between inputs (their sizes are drawn independently)
     x = g.add_input(g.pick([F32, F32, F32, F64]), shape, dims=dims, style=g.pick(["mixed", "smallint", "unit"]))
     x = _maybe_intermediate(g, x, P)
-    axis = g.pick([None, None] + list(range(1, rank - 1)) + list(range(-(rank - 1), -1)))
+    # (the accepted range is [-r, -2] U [0, r-2]: axis 0, the batch axis, is legal and is the one value that is falsy in Python)
+    axis = g.pick([None, None] + list(range(0, rank - 1)) + list(range(-rank, -1)))
     if axis is None and rank == 4 and s <= 19 and "dft_default_axis_rank4" in EXCLUDE:
         col.exclude("dft_default_axis_rank4")
         axis = g.pick([1, 2, -2, -3])
